@@ -13,6 +13,7 @@ Line-protocol driver for C19 (group chain). One op per line:
   forkput <key>                      Put(key, 0x01) on the store with prefix "groupFork" (shared key space)
   cadd <id> <pre> <parent> <create>  AddGroup that ran concurrently with another one (answer: result only)
   count | last | byheight <i> | byid <x> | iter | sync <x> | syncat <h> <n> | dump | mirror
+  below <x> (getFirstGroupBelowHeight) | top (height())
 
 Answers: see `harness/cmd/c19/main.go` (same formats, produced from the real code).
 -/
@@ -175,6 +176,10 @@ def query (c : Chain) : List String → Option String
     let h ← parseNat? h
     let n ← parseNat? n
     pure (listStr ((syncFrom c.disk h n).map ogstr))
+  | ["below", x] => do
+    let x ← parseNat? x
+    pure (if (iterList c).length > c.disk.length then "LOOP" else ogstr (firstBelow c x))
+  | ["top"] => some (toString (topHeight c))
   | ["dump"] => some (dumpStr c.disk)
   | ["mirror"] => some (mirrorStr c.mirror)
   | _ => none
